@@ -21,6 +21,8 @@ pub struct Dup {
     pub expect_ask: Option<(String, Option<String>)>,
     /// refused before the provider, with this kind (both carriers)
     pub expect_both_carriers: bool,
+    /// provider for this case (None: the standard two-key database)
+    pub prov: Option<ProvSpec>,
 }
 
 fn prov() -> ProvSpec {
@@ -109,6 +111,7 @@ pub fn generate(thorough: bool) -> Vec<Dup> {
                     expect_ok: k == 0,
                     expect_ask: Some((e2e::ACCESS_KEY.into(), None)),
                     expect_both_carriers: false,
+                    prov: None,
                 });
             }
         }
@@ -167,6 +170,7 @@ pub fn generate(thorough: bool) -> Vec<Dup> {
                     expect_ok: k == n - 1,
                     expect_ask: Some((e2e::ACCESS_KEY.into(), None)),
                     expect_both_carriers: false,
+                    prov: None,
                 });
             }
         }
@@ -207,6 +211,7 @@ pub fn generate(thorough: bool) -> Vec<Dup> {
                         expect_ok: valid_last,
                         expect_ask: Some((e2e::ACCESS_KEY.into(), None)),
                         expect_both_carriers: false,
+                    prov: None,
                     });
                 }
             }
@@ -250,6 +255,7 @@ pub fn generate(thorough: bool) -> Vec<Dup> {
                         expect_ok: valid_last,
                         expect_ask: if key == "Credential" && !valid_last { Some(("AKIDOTHER".into(), None)) } else { Some((e2e::ACCESS_KEY.into(), None)) },
                         expect_both_carriers: false,
+                    prov: None,
                     });
                 }
             }
@@ -283,6 +289,7 @@ pub fn generate(thorough: bool) -> Vec<Dup> {
                         expect_ok: true,
                         expect_ask: Some((e2e::ACCESS_KEY.into(), None)),
                         expect_both_carriers: false,
+                    prov: None,
                     });
                 }
             }
@@ -300,6 +307,7 @@ pub fn generate(thorough: bool) -> Vec<Dup> {
             expect_ok: false,
             expect_ask: None,
             expect_both_carriers: false,
+                    prov: None,
         });
     }
 
@@ -332,6 +340,7 @@ pub fn generate(thorough: bool) -> Vec<Dup> {
                 expect_ok: k == 0,
                 expect_ask: Some((e2e::ACCESS_KEY.into(), None)),
                 expect_both_carriers: false,
+                    prov: None,
             });
         }
     }
@@ -359,6 +368,7 @@ pub fn generate(thorough: bool) -> Vec<Dup> {
                 expect_ok: valid_is_xamz,
                 expect_ask: Some((e2e::ACCESS_KEY.into(), None)),
                 expect_both_carriers: false,
+                    prov: None,
             });
         }
     }
@@ -390,6 +400,7 @@ pub fn generate(thorough: bool) -> Vec<Dup> {
             expect_ok: true,
             expect_ask: Some((e2e::ACCESS_KEY.into(), Some(if k == 0 { "VALID-TOKEN".to_string() } else { "DECOY-0".to_string() }))),
             expect_both_carriers: false,
+                    prov: None,
         });
     }
 
@@ -408,7 +419,69 @@ pub fn generate(thorough: bool) -> Vec<Dup> {
             expect_ok: true,
             expect_ask: Some((e2e::ACCESS_KEY.into(), Some(long_tok))),
             expect_both_carriers: false,
+                    prov: None,
         });
+    }
+
+    // ---- 5c. two session tokens and a key store that knows the key under one of them only, answering the other with
+    //          each error kind: the first token is the one that counts -- its answer is final, the second token is
+    //          never tried (header carrier: two X-Amz-Security-Token headers; query carrier: the parameter twice)
+    {
+        let unknown_errors: Vec<crate::env::ErrSpec> = refmodel::Kind::ALL
+            .iter()
+            .map(|k| crate::env::ErrSpec::Sig(k.name().to_string(), format!("the key store says {}", k.name())))
+            .chain([crate::env::ErrSpec::Io, crate::env::ErrSpec::Str])
+            .collect();
+        for (ei, unknown) in unknown_errors.iter().enumerate() {
+            for fresh_first in [true, false] {
+                for carrier in [Carrier::Header, Carrier::Query] {
+                    for signed_token in [true, false] {
+                        if carrier == Carrier::Query && !signed_token {
+                            continue;
+                        }
+                        let (first, second) = if fresh_first { ("FRESH", "STALE") } else { ("STALE", "FRESH") };
+                        let mut plan = e2e::base_plan(carrier);
+                        plan.token = Some(first.to_string());
+                        let mut w;
+                        match carrier {
+                            Carrier::Header => {
+                                if signed_token {
+                                    plan.signed.push("x-amz-security-token".into());
+                                }
+                                plan.post_headers.push(("X-Amz-Security-Token".into(), second.as_bytes().to_vec()));
+                                w = WireReq::from_wire(&build(&plan).wire);
+                            }
+                            Carrier::Query => {
+                                let credential = format!("{}/{}", plan.access_key, plan.scope);
+                                plan.query_auth_override = Some(vec![
+                                    (b"X-Amz-Algorithm".to_vec(), b"AWS4-HMAC-SHA256".to_vec()),
+                                    (b"X-Amz-Credential".to_vec(), credential.into_bytes()),
+                                    (b"X-Amz-Date".to_vec(), plan.date_text.clone().into_bytes()),
+                                    (b"X-Amz-SignedHeaders".to_vec(), b"host".to_vec()),
+                                    (b"X-Amz-Security-Token".to_vec(), first.as_bytes().to_vec()),
+                                    (b"X-Amz-Security-Token".to_vec(), second.as_bytes().to_vec()),
+                                ]);
+                                w = WireReq::from_wire(&build(&plan).wire);
+                            }
+                        }
+                        let _ = &mut w;
+                        out.push(Dup {
+                            label: format!("two session tokens [{}, {}], the store knows the key under FRESH only and answers STALE with error #{}", first, second, ei),
+                            wire: w,
+                            cfg: cfg.clone(),
+                            expect_ok: fresh_first,
+                            expect_ask: Some((e2e::ACCESS_KEY.into(), Some(first.to_string()))),
+                            expect_both_carriers: false,
+                            prov: Some(ProvSpec::PairDb {
+                                entries: vec![(e2e::ACCESS_KEY.to_string(), Some("FRESH".to_string()), e2e::SECRET.to_string())],
+                                unknown: unknown.clone(),
+                                principal: 0,
+                            }),
+                        });
+                    }
+                }
+            }
+        }
     }
 
     // ---- 6/7. query carrier: the first value of each repeated X-Amz-* parameter counts
@@ -464,6 +537,7 @@ pub fn generate(thorough: bool) -> Vec<Dup> {
                     expect_ok: k == 0 || is_token,
                     expect_ask: Some((e2e::ACCESS_KEY.into(), Some(if !is_token || k == 0 { "VALID-TOKEN".to_string() } else { "DECOY-0".to_string() }))),
                     expect_both_carriers: false,
+                    prov: None,
                 });
             }
         }
@@ -492,6 +566,7 @@ pub fn generate(thorough: bool) -> Vec<Dup> {
             expect_ok: k == 0,
             expect_ask: Some((e2e::ACCESS_KEY.into(), None)),
             expect_both_carriers: false,
+                    prov: None,
         });
     }
 
@@ -576,6 +651,7 @@ pub fn generate(thorough: bool) -> Vec<Dup> {
                             expect_ok: k == 0 || is_token,
                             expect_ask: Some((e2e::ACCESS_KEY.into(), Some(if !is_token || k == 0 { "VALID-TOKEN".to_string() } else { "DECOY-0".to_string() }))),
                             expect_both_carriers: false,
+                    prov: None,
                         });
                     }
                 }
@@ -626,6 +702,7 @@ pub fn generate(thorough: bool) -> Vec<Dup> {
                             expect_ok: d.expect_ok,
                             expect_ask: d.expect_ask.clone(),
                             expect_both_carriers: d.expect_both_carriers,
+                            prov: d.prov.clone(),
                         });
                     }
                 }
@@ -665,6 +742,7 @@ pub fn generate(thorough: bool) -> Vec<Dup> {
                 expect_ok: false,
                 expect_ask: None,
                 expect_both_carriers: true,
+                    prov: None,
             });
         }
     }
@@ -705,6 +783,7 @@ pub fn generate(thorough: bool) -> Vec<Dup> {
                     expect_ok: valid_in_url || is_token,
                     expect_ask: Some((e2e::ACCESS_KEY.into(), Some(if !is_token || valid_in_url { "VALID-TOKEN".to_string() } else { "DECOY-0".to_string() }))),
                     expect_both_carriers: false,
+                    prov: None,
                 });
             }
         }
@@ -739,6 +818,7 @@ pub fn generate(thorough: bool) -> Vec<Dup> {
                 expect_ok: valid_in_url,
                 expect_ask: Some((e2e::ACCESS_KEY.into(), None)),
                 expect_both_carriers: false,
+                    prov: None,
             });
         }
     }
@@ -770,6 +850,7 @@ pub fn generate(thorough: bool) -> Vec<Dup> {
                 expect_ok: true,
                 expect_ask: Some((e2e::ACCESS_KEY.into(), if with_token { Some("VALID-TOKEN".to_string()) } else { None })),
                 expect_both_carriers: false,
+                    prov: None,
             });
         }
     }
@@ -798,6 +879,7 @@ pub fn generate(thorough: bool) -> Vec<Dup> {
                     expect_ok: true,
                     expect_ask: Some((e2e::ACCESS_KEY.into(), if with_token { Some("VALID-TOKEN".to_string()) } else { None })),
                     expect_both_carriers: false,
+                    prov: None,
                 });
             }
         }
@@ -821,6 +903,7 @@ pub fn generate(thorough: bool) -> Vec<Dup> {
             expect_ok: true,
             expect_ask: Some((e2e::ACCESS_KEY.into(), None)),
             expect_both_carriers: false,
+                    prov: None,
         });
         let mut plan = e2e::base_plan(Carrier::Query);
         plan.url_params = vec![(n.as_bytes().to_vec(), v.as_bytes().to_vec())];
@@ -832,6 +915,7 @@ pub fn generate(thorough: bool) -> Vec<Dup> {
             expect_ok: true,
             expect_ask: Some((e2e::ACCESS_KEY.into(), None)),
             expect_both_carriers: false,
+                    prov: None,
         });
     }
 
@@ -868,6 +952,7 @@ pub fn generate(thorough: bool) -> Vec<Dup> {
                     expect_ok: k1 == 0,
                     expect_ask: Some((e2e::ACCESS_KEY.into(), Some(if k2 == 0 { "VALID-TOKEN".to_string() } else { "DECOY-0".to_string() }))),
                     expect_both_carriers: false,
+                    prov: None,
                 });
             }
         }
@@ -902,6 +987,7 @@ pub fn generate(thorough: bool) -> Vec<Dup> {
                         expect_ok: d.expect_ok,
                         expect_ask: d.expect_ask.clone(),
                         expect_both_carriers: d.expect_both_carriers,
+                        prov: d.prov.clone(),
                     });
                 }
             }
@@ -912,7 +998,7 @@ pub fn generate(thorough: bool) -> Vec<Dup> {
 }
 
 pub fn eval(index: u64, d: &Dup, st: &mut Stats) {
-    let case = Case { wire: d.wire.clone(), cfg: d.cfg.clone(), prov: prov() };
+    let case = Case { wire: d.wire.clone(), cfg: d.cfg.clone(), prov: d.prov.clone().unwrap_or_else(prov) };
     let j = e2e::judge_into(index, &case, st);
     st.nontrivial(&case.wire);
     st.state(&(j.reference.stage as u8, j.reference.ask.clone().map(|a| (a.access_key, a.token))));
@@ -974,7 +1060,7 @@ pub fn run(ctx: &Ctx) -> Report {
     });
     Report {
         stats: st,
-        rule: "for each duplicable input — Authorization header (4 decoy kinds, with/without interleaved headers); Credential / SignedHeaders / Signature inside it (2 separators), the same with 0..9 unknown fields in front and 0..300 unknown fields between the two occurrences (field counts across 8, 16, 32, 64, 256), and differently-cased look-alikes of those names before/after the real ones (24 runs each), and with the last occurrence sitting between a field that opens a quoted value and a later one that closes it (4 quoting patterns: quotation marks do not protect commas); X-Amz-Date header (signed or not); X-Amz-Date vs Date in both orders; X-Amz-Security-Token header (also with a first token of 4 .. 64 KiB); every case with a repeated Authorization / date header again with the first occurrence padded by 8193 / 70000 bytes that do not change its meaning; query X-Amz-Algorithm / -Credential / -Date / -SignedHeaders / -Security-Token (adjacent or spread) and X-Amz-Signature, also with either occurrence's name spelled with escaped hyphens, and twice among 10 .. 1000 (thorough: every count 0 .. 300, and up to 2000) other parameters in four layouts (authentication parameters first / last, the two occurrences at the two ends, adjacent in the middle; other names sorting before or after X-Amz-*) — 2 or 3 occurrences with differing values and the single valid value at every position; the request is signed as received (all values in the canonical form) with the valid occurrence's data, so it validates iff the documented rule selects that occurrence; each X-Amz-* parameter once in the URL and once in a folded form body (valid one in either place, body with fewer or more names than the URL); inputs of the carrier that is NOT in use present as decoys (X-Amz-* query parameters next to an Authorization header; date / token / credential headers next to query authentication); plus Authorization together with X-Amz-Algorithm (3 values) in the URL, in a folded body and as a complete second authentication; thorough adds all pairs of duplicated date x token. Oracle: generator's expectation (independent of the reference verifier, and cross-checked against it), error kind and provider identity. states = (stage, identity seen by provider)".into(),
+        rule: "for each duplicable input — Authorization header (4 decoy kinds, with/without interleaved headers); Credential / SignedHeaders / Signature inside it (2 separators), the same with 0..9 unknown fields in front and 0..300 unknown fields between the two occurrences (field counts across 8, 16, 32, 64, 256), and differently-cased look-alikes of those names before/after the real ones (24 runs each), and with the last occurrence sitting between a field that opens a quoted value and a later one that closes it (4 quoting patterns: quotation marks do not protect commas); X-Amz-Date header (signed or not); X-Amz-Date vs Date in both orders; X-Amz-Security-Token header (also with a first token of 4 .. 64 KiB; and two tokens against a key store that knows the key under one of them only and answers the other with each of 14 error kinds — the first token's answer is final); every case with a repeated Authorization / date header again with the first occurrence padded by 8193 / 70000 bytes that do not change its meaning; query X-Amz-Algorithm / -Credential / -Date / -SignedHeaders / -Security-Token (adjacent or spread) and X-Amz-Signature, also with either occurrence's name spelled with escaped hyphens, and twice among 10 .. 1000 (thorough: every count 0 .. 300, and up to 2000) other parameters in four layouts (authentication parameters first / last, the two occurrences at the two ends, adjacent in the middle; other names sorting before or after X-Amz-*) — 2 or 3 occurrences with differing values and the single valid value at every position; the request is signed as received (all values in the canonical form) with the valid occurrence's data, so it validates iff the documented rule selects that occurrence; each X-Amz-* parameter once in the URL and once in a folded form body (valid one in either place, body with fewer or more names than the URL); inputs of the carrier that is NOT in use present as decoys (X-Amz-* query parameters next to an Authorization header; date / token / credential headers next to query authentication); plus Authorization together with X-Amz-Algorithm (3 values) in the URL, in a folded body and as a complete second authentication; thorough adds all pairs of duplicated date x token. Oracle: generator's expectation (independent of the reference verifier, and cross-checked against it), error kind and provider identity. states = (stage, identity seen by provider)".into(),
         bounds: json!({"cases": n, "occurrences": [2, 3]}),
         exhaustive: true,
         assumptions: vec![],
